@@ -247,6 +247,10 @@ impl C08 {
     fn word_case(&mut self, idx: u64, obs: &mut Obs) {
         let mut rng = Rng::for_case("C08w", self.seed, idx);
         let (word, kind) = self.words[(idx / 4) as usize % self.words.len()].clone();
+        if small() && (PATH_WORDS.contains(&word.as_str()) || word == "include" || word == "require") {
+            // the Miri interpreter cannot spawn processes and the file words add nothing there
+            return;
+        }
         let d2 = word.starts_with("d2-");
         // the canvas object is shared by clones (C03's known finding): every case gets a canvas of its own
         let mut xs = self.boot.clone();
@@ -345,7 +349,7 @@ impl C08 {
     // ------------------------------------------------------------------ kind B/C: token soup, fresh or long-lived interpreter
     fn soup(&self, rng: &mut Rng) -> String {
         let mut s = String::new();
-        for _ in 0..1 + rng.below(30) {
+        for _ in 0..1 + rng.below(if small() { 8 } else { 30 }) {
             match rng.below(24) {
                 0..=9 => {
                     // words whose argument is an allocation size only appear with a modest literal size in soups
@@ -375,7 +379,7 @@ impl C08 {
                 16 => s.push_str(rng.pick_str(&[": w", ";", "#(", "#)", "~)", "[", "]", "{", "}", "^{", "^}", "if", "else", "then", "begin", "until", "while", "repeat", "do", "loop", "case", "of", "endof", "endcase", "break", "foreach"])),
                 17 => s.push_str(rng.pick_str(&["let", "let [", "let {", "let ^", "&", "local x", "var v", "! v", "const K", "late f", "enum E", "endenum", ":", "=", "immediate", "defined", "see dup", "<name>"])),
                 18 => s.push_str(rng.pick_str(&["\\ comment", "\\( c \\)", "\\(", "\\)", "\\"])),
-                19 => s.push_str(&format!("include \"{}/{}\"", self.scratch, rng.pick_str(&["ok.xeh", "bad.xeh", "missing.xeh"]))),
+                19 if !small() => s.push_str(&format!("include \"{}/{}\"", self.scratch, rng.pick_str(&["ok.xeh", "bad.xeh", "missing.xeh"]))),
                 20 => s.push_str(rng.pick_str(&["^hex", "^bin", "^oct", "^dec", "true fmt/prefix", "true fmt/upcase", "true fmt/tags", "nil fmt/tags"])),
                 21 => s.push_str(rng.pick_str(&["u8", "16 bits", "8 seek", "18446744073709551615 uint", "0 int", "129 int", "remain", "offset", "input", "dump", "0 dump-at", "99 dump-at", "|00| find", "|12| magic", "cstr", "nulbytestr", "close-bitstr", "open-bitstr"])),
                 22 => s.push_str(rng.pick_str(&["depth", "dup", "drop", "swap", "over", "rot", "print", "println", ".s", "newline"])),
